@@ -320,6 +320,8 @@ func (ex *tmplExec) print(v tval) []*sym.Term {
 		out := make([]*sym.Term, 29)
 		for i := range out {
 			out[i] = m.fresh("timestr", 8)
+			// printable ASCII, no line breaks
+			m.addPC(m.ctx.And(m.ctx.Ule(m.ctx.BV(0x20, 8), out[i]), m.ctx.Ule(out[i], m.ctx.BV(0x7e, 8))))
 		}
 		return out
 	}
